@@ -961,3 +961,113 @@ Proof.
   pose proof Asc_example as Ha. unfold good_axis, hull_ok, a_c, a_x. cbn [fst snd length nth Nat.sub].
   repeat split; try exact Ha; try (left; repeat constructor); try (repeat constructor); lra.
 Qed.
+
+(* ------------------------------------------------------------------ *)
+(* no overshoot inside the hull: a convex combination of array entries      *)
+Lemma blend_bounds s (c : list R) x (G : nat -> R) lo hi : Asc c -> (2 <= length c)%nat ->
+  nth 0 c 0 <= x <= nth (length c - 1) c 0 ->
+  (forall j, (j < length c)%nat -> lo <= G j <= hi) ->
+  lo <= blend (length c) (axis_data s c x) G <= hi.
+Proof.
+  intros Ha Hn Hx HG. destruct (weights_in_hull s c x Ha Hn Hx) as (Hsum & Hl & Hh & _).
+  destruct (axis_reads_in_range s c x Ha ltac:(lia)) as [H1 H2].
+  pose proof (HG _ H1) as B1. pose proof (HG _ H2) as B2. unfold blend.
+  set (wl := w_lo _) in *. set (wh := w_hi _) in *.
+  set (g1 := G _) in *. set (g2 := G (wrap _ (e_hi _))) in *.
+  replace lo with ((wl + wh) * lo) by (rewrite Hsum; ring).
+  replace hi with ((wl + wh) * hi) by (rewrite Hsum; ring).
+  split; nra.
+Qed.
+
+Lemma tensor_eval_bounds (axes : list axis) (G : list nat -> R) lo hi :
+  Forall hull_ok axes -> (forall js, in_range axes js -> lo <= G js <= hi) ->
+  lo <= tensor_eval axes G <= hi.
+Proof.
+  revert G; induction axes as [|t r IH]; intros G Hok HG.
+  - cbn. apply HG. constructor.
+  - inversion Hok as [|? ? (Ha & Hn & Hx) Hr]; subst. cbn [tensor_eval]. unfold axd_of.
+    apply blend_bounds; try assumption.
+    intros j Hj. apply IH; [exact Hr|]. intros js Hjs. apply HG. constructor; assumption.
+Qed.
+
+Lemma peraxis_bounds_d (axes : list axis) (G : list nat -> R) lo hi :
+  Forall hull_ok axes -> (forall js, in_range axes js -> lo <= G js <= hi) ->
+  lo <= peraxis_point (map a_s axes) (map a_c axes) (wrapped (shape_of axes) G) (map a_x axes) <= hi.
+Proof. intros Hok HG. rewrite peraxis_tensor. exact (tensor_eval_bounds axes G lo hi Hok HG). Qed.
+
+(* ------------------------------------------------------------------ *)
+(* resampling onto the same grid is the identity (Resampling(space, space, interp),
+   linear_deform with zero displacement)                                   *)
+Fixpoint unravel (shape : list nat) (k : nat) : list nat :=
+  match shape with
+  | [] => []
+  | n :: sh => (k / prodn sh)%nat :: unravel sh (k mod prodn sh)
+  end.
+
+Lemma unravel_spec (cvs : list (list R)) k : (k < prodn (map (@length R) cvs))%nat ->
+  Forall2 (fun c j => (j < length c)%nat) cvs (unravel (map (@length R) cvs) k) /\
+  nat_index (map (@length R) cvs) (unravel (map (@length R) cvs) k) = k.
+Proof.
+  revert k; induction cvs as [|c r IH]; intros k Hk.
+  - cbn in *. split; [constructor | lia].
+  - cbn [map unravel nat_index prodn fold_right] in *. fold (prodn (map (@length R) r)) in *.
+    set (P := prodn (map (@length R) r)) in *.
+    assert (HP : (0 < P)%nat) by (destruct P; [rewrite Nat.mul_0_r in Hk; lia | lia]).
+    destruct (IH (k mod P)%nat) as [HF Hidx]; [apply Nat.mod_upper_bound; lia|].
+    split.
+    + constructor; [|exact HF]. apply Nat.div_lt_upper_bound; [lia|]. rewrite Nat.mul_comm. exact Hk.
+    + rewrite Hidx. rewrite (Nat.div_mod k P) at 3 by lia. lia.
+Qed.
+
+Definition resample_ok (t : scheme * list R) : Prop := good_axis (fst t) (snd t).
+
+Lemma node_ok_of (l : list (scheme * list R)) js :
+  Forall resample_ok l -> Forall2 (fun c j => (j < length c)%nat) (map snd l) js ->
+  exists naxes : list naxis,
+    Forall node_ok naxes /\ map at_node naxes = map (fun tj : (scheme * list R) * nat => (fst tj, nth (snd tj) (snd (fst tj)) 0)) (combine l js)
+    /\ map n_j naxes = js /\ map a_s (map at_node naxes) = map fst l /\ map a_c (map at_node naxes) = map snd l
+    /\ map a_x (map at_node naxes) = node_at (map snd l) js.
+Proof.
+  revert js; induction l as [|[s c] r IH]; intros js Hok HF.
+  - inversion HF; subst. exists []. cbn. repeat split; constructor.
+  - inversion Hok as [|? ? Hg Hr]; subst. cbn [map snd] in HF. inversion HF as [|? j ? js' Hj HF']; subst.
+    destruct (IH js' Hr HF') as (na & Hna & Hmap & Hjs & Hs & Hc & Hx).
+    exists ((s, c, j) :: na). cbn [map combine fst snd]. repeat split.
+    + constructor; [split; [exact Hg | exact Hj] | exact Hna].
+    + unfold at_node at 1. cbn [fst snd]. f_equal. exact Hmap.
+    + unfold n_j at 1. cbn [snd]. f_equal. exact Hjs.
+    + unfold a_s at 1, at_node at 1. cbn [fst snd]. f_equal. exact Hs.
+    + unfold a_c at 1, at_node at 1. cbn [fst snd]. f_equal. exact Hc.
+    + unfold a_x at 1, at_node at 1, node_at. cbn [fst snd map2]. f_equal. exact Hx.
+Qed.
+
+Lemma shape_of_at_node (na : list naxis) : shape_of (map at_node na) = map (@length R) (map a_c (map at_node na)).
+Proof. apply shape_of_lengths. Qed.
+
+Lemma resample_same_grid (l : list (scheme * list R)) (flat : list R) :
+  Forall resample_ok l -> length flat = prodn (map (@length R) (map snd l)) ->
+  peraxis_mesh (map fst l) (map snd l) (vget (map (@length R) (map snd l)) flat) (map snd l) = flat.
+Proof.
+  intros Hok Hlen.
+  pose (ml := map (fun t : scheme * list R => (fst t, snd t, snd t)) l : list maxis).
+  assert (Hs : map m_s ml = map fst l) by (unfold ml; rewrite map_map; reflexivity).
+  assert (Hc : map m_c ml = map snd l) by (unfold ml; rewrite map_map; reflexivity).
+  assert (Hx : map m_xs ml = map snd l) by (unfold ml; rewrite map_map; reflexivity).
+  rewrite <- Hs at 1. rewrite <- Hc at 1. rewrite <- Hx at 2.
+  rewrite peraxis_mesh_pointwise, Hs, Hc, Hx.
+  apply (nth_ext _ _ 0 0).
+  - rewrite map_length, cart_length. symmetry. exact Hlen.
+  - intros k Hk. rewrite map_length, cart_length in Hk.
+    destruct (unravel_spec (map snd l) k Hk) as [HF Hidx].
+    set (js := unravel (map (@length R) (map snd l)) k) in *.
+    destruct (nat_index_cart (map snd l) js HF) as [_ Hnth]. rewrite Hidx in Hnth.
+    rewrite (nth_indep _ 0 (peraxis_point (map fst l) (map snd l) (vget (map (@length R) (map snd l)) flat) []))
+      by (rewrite map_length, cart_length; exact Hk).
+    rewrite map_nth, Hnth.
+    destruct (node_ok_of l js Hok HF) as (na & Hna & _ & Hjs & Has & Hac & Hax).
+    rewrite <- Has, <- Hac at 1. rewrite <- Hax.
+    replace (vget (map (@length R) (map snd l)) flat)
+      with (wrapped (shape_of (map at_node na)) (fun js' => nth (nat_index (map (@length R) (map snd l)) js') flat 0))
+      by (rewrite shape_of_at_node, Hac; reflexivity).
+    rewrite (peraxis_node_d na _ Hna). rewrite Hjs, Hidx. reflexivity.
+Qed.
